@@ -292,11 +292,17 @@ func (s *Sim) JudgeQueries(b, c int) {
 		}
 	}
 	for qi, q := range s.queryCases() {
-		if q.jsonOnly && !allJSON {
-			continue
-		}
 		want := q.want(docs)
 		got, err := s.runQuery(b, c, q.stmt, q.args, qi%2 == 1)
+		if q.jsonOnly && !allJSON {
+			// a body that is not JSON makes SQLite's JSON operators fail: the query may report that error (from Query,
+			// from the iteration or from Close), but it must not pass off the rows it got so far as the whole result
+			s.Ctx.Count("body_queries_over_raw_bodies", 1)
+			if err != nil {
+				s.Ctx.Count("body_queries_over_raw_bodies_refused", 1)
+				continue
+			}
+		}
 		s.Ctx.Count("queries_judged", 1)
 		s.Ctx.Count("query_rows_compared", int64(len(want)))
 		s.Ctx.Cell(fmt.Sprintf("query|%s|docs=%d|tombs=%v|%s", q.name, min64(int64(len(docs)), 4), tombs > 0, ifs(s.Env.Cfg.Disk, "disk", "mem")))
